@@ -18,7 +18,7 @@ func init() {
 		Explanation: "DECIDED (structural, all parameter values): (1) divguard — every integer / and % in every method of every lib type implementing lib.Pacer, and in their in-package callees, has a divisor proven non-zero by a dominating guard or constant (Go panics on integer division by zero; value derived by dividing two positives is NOT assumed positive); (2) guard-polarity — in each Pace that reads a Rate's Freq/Per, the ==0 tests return stop=false and the <0 tests return stop=true; SinePacer.Pace returns stop=true on invalid(); (3) overflow-guard — every integer multiplication involving the hits parameter whose product is converted to time.Duration is dominated by the false edge of a MaxInt64/x < hits test whose true edge returns stop=true; (4) no other panic-capable instruction (index, slice, type assertion, map update, explicit panic) occurs in pacer code; out-of-package callees are limited to a whitelist of total functions. " +
 			"NOT DECIDED: the trajectory clauses (hits never exceed schedule+1, positive wait only when on/ahead of schedule, at most one hit behind for constant/sine) are numerical statements over float/integer values across iterations — in particular the sine pacer's runaway as amplitude approaches mean has no structural signature; no sound static argument in reach bounds them.",
 		Assumptions: []string{"Go semantics: integer division by zero is the only arithmetic panic; float→int conversion never panics", "whitelisted callees math.{Round,Abs,Sin,Cos,Pow}, time.Duration.{Nanoseconds,Seconds}, fmt.Sprintf are total"},
-		MinObs:      12,
+		MinObs:      25,
 		Run:         runC01,
 	})
 }
